@@ -212,6 +212,7 @@ def generate(rng, n, tier):
         lines = ["t0 = T('base')"]
         k = rng.randint(2, 4)
         subs = []
+        setops = set()
         for i in range(1, k + 1):
             depth = rng.choice([0, 0, 1, 1, 2])
             lines.append("t%d = T('tab%d')" % (i, i))
@@ -221,13 +222,19 @@ def generate(rng, n, tier):
                 body = "%s.from_(n%d_%d).select(n%d_%d.k%d.as_('k%d'))" % (qn, i, dpt, i, dpt, i, i)
             lines.append("s%d = %s.from_(t%d).select(t%d.c_t%d_0.as_('c_s%d_0'))" % (i, qn, i, i, i, i) if depth == 0 else
                          "s%d = %s" % (i, body.replace(".as_('k%d'))" % i, ".as_('c_s%d_0'))" % i)))
+            if rng.random() < 0.3:
+                # an un-aliased set operation as a row source: it carries no counter of its own, the statement's counter
+                # names it (from_ only: join() does not take set operations)
+                lines[-1] = lines[-1].replace("s%d = " % i, "o%d = " % i, 1)
+                lines.append("s%d = o%d.%s(%s.from_(t%d).select(t%d.c_t%d_1))" % (i, i, rng.choice(["union", "union_all", "intersect"]), qn, i, i, i))
+                setops.add("s%d" % i)
             subs.append("s%d" % i)
         order = subs[:]
         rng.shuffle(order)
         head = "%s.from_(%s)" % (qn, order[0])
         tagcalls = [["from", order[0]]]
         for sname in order[1:]:
-            if rng.random() < 0.5:
+            if sname in setops or rng.random() < 0.5:
                 head += ".from_(%s)" % sname
                 tagcalls.append(["from", sname])
             else:
@@ -281,7 +288,7 @@ def examine(case):
         pass
     if case.get("tagcalls"):
         # the invented names against the model's numbering rule (Lean `C10.tagCalls`, proved pairwise distinct)
-        calls = [{"k": k, "sub": env[v]._subquery_count} for k, v in case["tagcalls"]]
+        calls = [{"k": k, "sub": env[v].__dict__.get("_subquery_count", 0)} for k, v in case["tagcalls"]]
         res.requests.append(({"op": "tagcalls", "count": 0, "calls": calls}, {"names": [env[v].alias for _, v in case["tagcalls"]]},
                              "invented names of from_/join calls"))
     try:
